@@ -87,6 +87,11 @@ type Result struct {
 	Stale      []StaleRead    `json:"stale_reads"`
 	SitesAll   []SiteInfo     `json:"sites_all"`
 	Notes      []string       `json:"notes"`
+	// Parents: closure -> the function it is written in; declared function with exactly one
+	// caller -> that caller.  Used to recognise a known finding after a helper was extracted.
+	Parents map[string]string `json:"parents"`
+	// Branches: how often each branch of the pairwise rule / the stale-pointer rule decided on this table
+	Branches map[string]int `json:"rule_branches"`
 }
 
 func keyBase(k lockKey) (string, string) {
@@ -165,6 +170,39 @@ func (a *analyzer) solve() *Result {
 		p.accesses = keep
 	} else {
 		a.notes = append(a.notes, "no `X.Serve(...)` call found in func Serve: request goroutines are not ordered after server start-up")
+	}
+	// closures passed for a func-typed parameter: called where the callee calls the parameter
+	for _, la := range a.litArgs {
+		inv := map[string]string{}
+		for from, to := range la.binds {
+			inv[to] = from
+		}
+		var direct *edge
+		for _, e := range la.lit.in {
+			if e.mode == "param" {
+				direct = e
+			}
+		}
+		n := 0
+		for _, pc := range a.paramCalls {
+			if pc.u == la.callee && pc.idx == la.idx {
+				la.lit.in = append(la.lit.in, &edge{from: pc.u, to: la.lit, st: pc.st, binds: inv, mode: "call"})
+				n++
+			}
+		}
+		if direct != nil {
+			if n == 0 {
+				direct.mode = "callback" // the callee stores it or passes it on
+			} else {
+				var keep []*edge
+				for _, e := range la.lit.in {
+					if e != direct {
+						keep = append(keep, e)
+					}
+				}
+				la.lit.in = keep
+			}
+		}
 	}
 	for _, u := range a.units {
 		if u.isLit || u.name == "Serve" || u.name == "init" {
@@ -341,7 +379,27 @@ func (a *analyzer) solve() *Result {
 	for _, sp := range a.spawns {
 		spawnByID[sp.id] = sp
 	}
-	res := &Result{PerClass: map[string]int{}, Inserts: map[string]int{}, Notes: a.notes}
+	res := &Result{PerClass: map[string]int{}, Inserts: map[string]int{}, Notes: a.notes, Parents: map[string]string{}}
+	for _, u := range a.units {
+		if u.isLit {
+			if i := strings.LastIndex(u.name, "$"); i > 0 {
+				res.Parents[u.name] = u.name[:i]
+			}
+			continue
+		}
+		var from *unit
+		ok := len(u.in) > 0 && !u.valueRef
+		for _, e := range u.in {
+			if e.from == nil || e.sp != nil || !(e.mode == "call" || e.mode == "deferred") || (from != nil && e.from != from) {
+				ok = false
+				break
+			}
+			from = e.from
+		}
+		if ok && from != nil && from != u {
+			res.Parents[u.name] = from.name
+		}
+	}
 	for _, sp := range a.spawns {
 		pos := a.fset.Position(sp.node.Pos())
 		res.Spawns = append(res.Spawns, fmt.Sprintf("%d: %s in %s (line %d) -> thread class %q once=%v single=%v", sp.id, sp.kind, sp.parent.name, pos.Line, sp.class, once[sp.id], single[sp.class]))
@@ -403,6 +461,17 @@ func (a *analyzer) solve() *Result {
 			L := eff(entry[u], ac.st)
 			locks, pre, post := lockRefs(ac, L)
 			live, valid := liveValid(ac, L, locks)
+			use := ac.use
+			if ac.snap && len(ac.snapUses) > 0 {
+				// the value was copied into a local: it is used where the local is used
+				use, live, valid = true, true, true
+				for _, us := range ac.snapUses {
+					Lu := eff(entry[u], us)
+					lu, _, _ := lockRefs(ac, Lu)
+					l, v := liveValid(ac, Lu, lu)
+					live, valid = live && l, valid && v
+				}
+			}
 			racy := false
 			if ac.origin >= 0 {
 				o := u.accesses[ac.origin]
@@ -413,7 +482,7 @@ func (a *analyzer) solve() *Result {
 			sort.Strings(hb)
 			for _, t := range ths {
 				f := Fact{Func: u.name, Line: ac.line, Cls: ac.cls, Kind: ac.kind, Locks: locks, Thread: t, Single: single[t] || (forkOwners[ac.owner] && objSingle[t]) || (elementOwners[ac.owner] && elemSingle[t]),
-					Init: ac.init, Racy: racy, Atomic: ac.atomic, Pre: pre, Post: post, HB: hb, Use: ac.use, Live: live, Valid: valid}
+					Init: ac.init, Racy: racy, Atomic: ac.atomic, Pre: pre, Post: post, HB: hb, Use: use, Live: live, Valid: valid}
 				key := fmt.Sprintf("%s|%s|%s|%v|%s|%v|%v|%v|%v|%v|%v|%v|%v|%v", f.Func, f.Cls, f.Kind, f.Locks, f.Thread, f.Init, f.Racy, f.Atomic, f.Pre, f.Post, f.HB, f.Use, f.Live, f.Valid)
 				if seen[key] {
 					continue
@@ -442,6 +511,8 @@ func (a *analyzer) solve() *Result {
 	res.Cleared = keys(a.cleared)
 	res.index()
 	res.check()
+	res.Branches = map[string]int{}
+	res.branches(res.Branches)
 	return res
 }
 
@@ -542,6 +613,71 @@ func (r *Result) compat(a, b *Fact) bool {
 	}
 	return (a.Init && !b.Racy) || (b.Init && !a.Racy) || (a.Atomic && b.Atomic) ||
 		interI(a.Pre, b.Post) || interI(b.Pre, a.Post) || interI(a.Pre, b.Pre) || interS(a.HB, b.HB)
+}
+
+// pairBranch names the first disjunct of `compat` that accepts the pair (the order of the Lean
+// definition), or "violation"; staleBranch the same for `staleRead`.  Only counted (coverage of the
+// rule's branches by the random tables and by the tree's table).
+func (r *Result) pairBranch(a, b *Fact) string {
+	switch {
+	case !(r.isWrite(a) || r.isWrite(b)):
+		if a.Kind == "mapDelete" || b.Kind == "mapDelete" {
+			return "pair_reads_delete_on_never_inserted_map"
+		}
+		return "pair_both_reads"
+	case a.Single && b.Single && a.Thread == b.Thread:
+		return "pair_same_single_thread"
+	case interS(a.Locks, b.Locks):
+		return "pair_common_lock"
+	case (a.Init && !b.Racy) || (b.Init && !a.Racy):
+		return "pair_exempt_init"
+	case a.Atomic && b.Atomic:
+		return "pair_exempt_atomic"
+	case interI(a.Pre, b.Post) || interI(b.Pre, a.Post):
+		return "pair_exempt_fork_pre_post"
+	case interI(a.Pre, b.Pre):
+		return "pair_exempt_fork_pre_pre"
+	case interS(a.HB, b.HB):
+		return "pair_exempt_hb"
+	}
+	if (a.Init && b.Racy) || (b.Init && a.Racy) {
+		return "pair_violation_init_vs_racy_reference"
+	}
+	return "pair_violation"
+}
+
+func (r *Result) staleBranch(f *Fact) string {
+	switch {
+	case f.Kind != "read":
+		return "stale_na_not_a_read"
+	case !contains(r.Cleared, f.Cls):
+		return "stale_na_class_not_cleared"
+	case !f.Use:
+		return "stale_ok_nil_comparison_only"
+	case f.Live && r.writesHold(f.Cls, "g:"+registryLock):
+		return "stale_ok_live"
+	case f.Valid && r.writesHold(f.Cls, "s:"+objectLock):
+		return "stale_ok_valid"
+	case f.Init:
+		return "stale_ok_fresh"
+	case contains(f.HB, "holder"):
+		return "stale_ok_holder"
+	case f.Live || f.Valid:
+		return "stale_flag_not_honoured_a_write_lacks_the_lock"
+	}
+	return "stale_unprotected"
+}
+
+// branches counts, over the whole table, which branch of the two rules decided
+func (r *Result) branches(into map[string]int) {
+	for i := range r.Facts {
+		for j := i; j < len(r.Facts); j++ {
+			if r.Facts[i].Cls == r.Facts[j].Cls {
+				into[r.pairBranch(&r.Facts[i], &r.Facts[j])]++
+			}
+		}
+		into[r.staleBranch(&r.Facts[i])]++
+	}
 }
 
 func (r *Result) exemptReason(a, b *Fact) string {
